@@ -77,6 +77,10 @@ class SyncEngine(BaseEngine):
                     raise
         finally:
             self._processing.release()
+        if self._external_queue:
+            # Another thread put an event after our last emptiness test but before the
+            # release above, and so could not enter the critical section: process it now.
+            self.processing_loop()
         return first_result if first_result is not self._sentinel else None
 
     def _trigger(self, trigger_data: TriggerData):
